@@ -12,7 +12,7 @@ Proof.
   destruct q as [qname qtype]. unfold question_cands.
   destruct (qtype =? TY_PTR).
   - unfold ptr_cands. apply Forall_forall. intros c Hc. apply in_flat_map in Hc as (s & _ & Hc).
-    destruct (beq qname _); [|contradiction]. destruct Hc as [<-|[]]. intros H; discriminate H.
+    destruct (names_type_or_sub qname s); [|contradiction]. destruct Hc as [<-|[]]. intros H; discriminate H.
   - apply Forall_app. split.
     + unfold addr_cands. destruct (_ || _); [|constructor].
       apply Forall_forall. intros c Hc. apply in_flat_map in Hc as (s & _ & Hc).
@@ -30,10 +30,16 @@ Proof.
   apply Forall_app. split; [apply question_cands_wf | exact IH].
 Qed.
 
-(* the code's two answer paths are step_gen with both switches on *)
-Lemma step_code_eq kas out c : cand_wf c -> step_code kas out c = step_gen true true kas out c.
+(* the code's two answer paths do what the property text says *)
+Lemma suppressed_by_is_spec a kas : suppressed_by (o_id a) (o_ttl a) kas = suppressed_spec a kas.
 Proof.
-  intros Hwf. unfold step_code, step_gen, suppressed_gen.
+  unfold suppressed_by, suppressed_spec. induction kas as [|k kas IH]; [reflexivity|].
+  simpl. rewrite IH, suppress_eq_spec. reflexivity.
+Qed.
+
+Lemma step_code_eq kas out c : cand_wf c -> step_code kas out c = step_spec kas out c.
+Proof.
+  intros Hwf. unfold step_code, step_spec. rewrite <- suppressed_by_is_spec.
   destruct (cd_is_ptr c) eqn:Ep.
   - unfold add_answer_with_additionals, add_answer.
     destruct (cd_has_addrs c); simpl; [|reflexivity].
@@ -49,86 +55,58 @@ Proof.
   inversion H; subst. simpl. rewrite H2. apply IH. assumption.
 Qed.
 
-Lemma resp_predict_is_gen svcs qs kas : resp_predict svcs qs kas = resp_gen true true svcs qs kas.
+(* for every set of services, every question list and every known-answer list the daemon's
+   response is the one the property prescribes *)
+Lemma resp_is_text svcs qs kas : resp_predict svcs qs kas = resp_spec svcs qs kas.
 Proof.
-  unfold resp_predict, resp_gen. f_equal. apply fold_left_ext_in.
+  unfold resp_predict, resp_spec. f_equal. apply fold_left_ext_in.
   eapply Forall_impl; [|apply cands_wf]. intros c Hc a. apply step_code_eq. exact Hc.
 Qed.
 
-(* when do code and property text agree on a candidate answer *)
-Definition flush_agree (a : orec) (kas : list (ident * N)) : Prop :=
-  forall k, In k kas -> same_record (o_id a) (fst k) = true -> i_flush (o_id a) = i_flush (fst k).
-
-Lemma suppressed_gen_agree a kas :
-  flush_agree a kas -> suppressed_gen true a kas = suppressed_gen false a kas.
+(* a suppressed answer leaves nothing behind: whatever the step does when the answer is
+   suppressed, the additionals are unchanged *)
+Lemma suppressed_brings_nothing kas out c :
+  suppressed_spec (cd_answer c) kas = true ->
+  out_answers (step_spec kas out c) = out_answers out /\
+  out_additionals (step_spec kas out c) = out_additionals out.
 Proof.
-  intros H. unfold suppressed_gen, suppressed_by. revert H. unfold flush_agree.
-  induction kas as [|k kas IH]; intros H; [reflexivity|].
-  simpl. rewrite IH by (intros k' Hk'; apply H; right; exact Hk'). f_equal.
-  destruct (same_record (o_id a) (fst k)) eqn:Es.
-  - apply suppress_agrees_with_spec. apply H; [left; reflexivity | exact Es].
-  - unfold suppressed_by_answer, suppress_spec. rewrite matches_same_record, Es. reflexivity.
+  intros H. unfold step_spec. destruct (negb (cd_has_addrs c)); [split; reflexivity|].
+  rewrite H. split; reflexivity.
 Qed.
 
-Definition cand_agree (kas : list (ident * N)) (c : cand) : Prop :=
-  flush_agree (cd_answer c) kas /\
-  (cd_is_ptr c = false -> cd_adds c <> [] -> suppressed_gen false (cd_answer c) kas = false).
-
-Lemma step_gen_agree kas out c :
-  cand_agree kas c -> step_gen true true kas out c = step_gen false false kas out c.
+Lemma unsuppressed_brings_all kas out c :
+  cd_has_addrs c = true -> suppressed_spec (cd_answer c) kas = false ->
+  out_answers (step_spec kas out c) = out_answers out ++ [cd_answer c] /\
+  out_additionals (step_spec kas out c) = out_additionals out ++ cd_adds c.
 Proof.
-  intros [Hf Ha]. unfold step_gen. rewrite (suppressed_gen_agree _ _ Hf).
-  destruct (negb (cd_has_addrs c)); [reflexivity|].
-  destruct (suppressed_gen false (cd_answer c) kas) eqn:Es; [|reflexivity].
-  destruct (cd_is_ptr c) eqn:Ep; simpl; [reflexivity|].
-  destruct (cd_adds c) as [|x l] eqn:Ead.
-  - rewrite app_nil_r. reflexivity.
-  - exfalso. specialize (Ha eq_refl ltac:(discriminate)). discriminate Ha.
+  intros Ha H. unfold step_spec. rewrite Ha, H. split; reflexivity.
 Qed.
 
-(* outside the two listed classes the daemon's response is the one the property prescribes *)
-Lemma resp_agrees_with_text svcs qs kas :
-  Forall (cand_agree kas) (flat_map (question_cands svcs) qs) ->
-  resp_predict svcs qs kas = resp_spec svcs qs kas.
-Proof.
-  intros H. rewrite resp_predict_is_gen. unfold resp_spec, resp_gen. f_equal.
-  apply fold_left_ext_in. eapply Forall_impl; [|exact H].
-  intros c Hc a. apply step_gen_agree. exact Hc.
-Qed.
-
-(* ---- witnesses of the two deviations ---- *)
+(* ---- examples ---- *)
 Definition ex_name : bytes := [105; 46].      (* "i." *)
 Definition ex_host : bytes := [104; 46].      (* "h." *)
 Definition ex_ty : bytes := [116; 46].        (* "t." *)
+Definition ex_sub : bytes := [115; 46; 116; 46].   (* "s.t." *)
 Definition ex_svc : svc :=
   mkSvc (mkO (mkId ex_ty TY_PTR 1 false (RPtr ex_name) 2) 4500)
+        (Some (mkO (mkId ex_sub TY_PTR 1 false (RPtr ex_name) 2) 4500))
         (mkO (mkId ex_name TY_SRV 1 true (RSrv 0 0 80 ex_host) 2) 120)
         (mkO (mkId ex_name TY_TXT 1 true (RTxt [0]) 2) 4500)
         [mkO (mkId ex_host TY_A 1 true (RAddr [10; 0; 0; 1]) 2) 120].
 
-(* SRV + TXT asked, SRV listed (with the flush bit, TTL 100 > 60): the SRV answer is left out
-   but the address it would have brought is still sent *)
-Lemma resp_srv_additionals_refuted :
-  exists svcs qs kas, resp_predict svcs qs kas <> resp_spec svcs qs kas /\
-    resp_predict svcs qs kas = Some ([sv_txt ex_svc], sv_addrs ex_svc) /\
-    resp_spec svcs qs kas = Some ([sv_txt ex_svc], []).
-Proof.
-  exists [ex_svc], [(ex_name, TY_SRV); (ex_name, TY_TXT)], [(o_id (sv_srv ex_svc), 100)].
-  split; [vm_compute; discriminate | split; vm_compute; reflexivity].
-Qed.
+(* SRV + TXT asked, SRV listed WITHOUT the cache-flush bit (the form RFC 6762 10.2 prescribes),
+   TTL 100 > 60: the SRV answer and the address it would have brought are left out *)
+Lemma resp_srv_example :
+  resp_predict [ex_svc] [(ex_name, TY_SRV); (ex_name, TY_TXT)]
+    [(mkId ex_name TY_SRV 1 false (RSrv 0 0 80 ex_host) 2, 100)] = Some ([sv_txt ex_svc], []).
+Proof. vm_compute. reflexivity. Qed.
 
-(* SRV asked, SRV listed WITHOUT the cache-flush bit (as RFC 6762 10.2 requires of a querier),
-   TTL 120: the property says silence, the daemon answers *)
-Lemma resp_flush_bit_refuted :
-  exists svcs qs kas, resp_spec svcs qs kas = None /\ resp_predict svcs qs kas <> None.
-Proof.
-  exists [ex_svc], [(ex_name, TY_SRV)], [(mkId ex_name TY_SRV 1 false (RSrv 0 0 80 ex_host) 2, 120)].
-  split; [vm_compute; reflexivity | vm_compute; discriminate].
-Qed.
-
-(* the PTR path has no such deviation: a suppressed PTR leaves nothing behind *)
-Lemma resp_ptr_example :
+(* type PTR + TXT asked, the PTR listed above half: TXT is answered, the suppressed PTR brings
+   no additional at all - not even the subtype PTR *)
+Lemma resp_ptr_suppressed_example :
+  resp_predict [ex_svc] [(ex_ty, TY_PTR); (ex_name, TY_TXT)] [(o_id (sv_ptr ex_svc), 2251)]
+  = Some ([sv_txt ex_svc], []) /\
   resp_predict [ex_svc] [(ex_ty, TY_PTR)] [(o_id (sv_ptr ex_svc), 2251)] = None /\
   resp_predict [ex_svc] [(ex_ty, TY_PTR)] [(o_id (sv_ptr ex_svc), 2250)]
-  = Some ([sv_ptr ex_svc], [sv_srv ex_svc; sv_txt ex_svc] ++ sv_addrs ex_svc).
-Proof. split; vm_compute; reflexivity. Qed.
+  = Some ([sv_ptr ex_svc], sub_list ex_svc ++ [sv_srv ex_svc; sv_txt ex_svc] ++ sv_addrs ex_svc).
+Proof. repeat split; vm_compute; reflexivity. Qed.
